@@ -14,7 +14,7 @@ from ..model import dotted_name, src, body_wo_doc, is_logging_stmt
 from ..opaque import linear, F
 from ..report import AnalysisError
 from ..sym import (Ev, Obj, Tup, DictV, ArrV, LibV, Opaque, as_sym, is_sym, indexed, is_indexed, Indexed, BoundLib)
-from .C18 import strain_of, strain_intr, plsf_intr
+from .C18 import strain_of, strain_intr, plsf_intr, fit_abscissae
 
 FULL = "cij.core.full_modulus:FullThermalElasticModulus"
 TASKLIST = "cij.core.tasks:PhononContributionTaskList"
@@ -86,9 +86,10 @@ def setup(ctx, model, lattice=True, keys=None):
         p, x = a[0], a[1]
         if not isinstance(p, PolyFit):
             raise AnalysisError("numpy.polyval of something that is not a numpy.polyfit result")
+        px, xn = fit_abscissae(p.x, as_sym(x))
         if p.flaw:
-            return linear("POLYFIT_" + p.flaw, [p.x, p.y, p.deg, as_sym(x)], 1)
-        return linear("POLYFIT", [p.x, p.y, p.deg, as_sym(x)], 1)
+            return linear("POLYFIT_" + p.flaw, [px, p.y, p.deg, xn], 1)
+        return linear("POLYFIT", [px, p.y, p.deg, xn], 1)
 
     def vander(ev, a, k):
         b = dict(zip(["x", "N", "increasing"], a))
@@ -167,6 +168,7 @@ def at0(x):
 def static_reference(ev, key):
     xs = strain_of(ev, at0(VOLS2), VOLS2)
     xg = strain_of(ev, at0(VOLS2), V)
+    xs, xg = fit_abscissae(xs, xg)
     return linear("POLYFIT", [xs, VOLS2 * sp.Symbol(f"CST_{key[1:]}", real=True), sp.Integer(3), xg], 1) / V / AU
 
 
@@ -277,6 +279,7 @@ def r_pstatic(ctx, model):
             raise AnalysisError("_calculate_pressure_static does not set static_p_array")
         xs = strain_of(ev, at0(VOLS), VOLS)
         xg = strain_of(ev, at0(VOLS), V)
+        xs, xg = fit_abscissae(xs, xg)
         fit = linear("FIT", [xs, ENER, xg, sp.Integer(3)], 1)
         want = -linear("GRAD", [fit], 0) / linear("GRAD", [V], 0) / AU
         ctx.check(is_zero(as_sym(got) - want), f"static pressure = -grad(cubic fit of input energies)/grad(V) ({label})", model.where(ref, f), expected=short(want, 300),
